@@ -862,7 +862,7 @@ def run(ck, replay):
         "raft hands entries to FSM.Apply in log order; after Restore/restart exactly the entries after the snapshot's index (schedule_ok)",
         "a process restart finds a persisted snapshot, unless main() re-creates irclog at start-up (source fact irclog_wiped_at_start = fixes/D18-wipe-irclog-on-start.diff); excludes D18: stale irclog after a restart without snapshot; refuted otherwise: C02_refuted_restart_without_snapshot",
         "Marshal/Unmarshal round trip (C03), only Config messages change SessionExpiration, DefaultConfig.SessionExpiration = 10 min",
-        "Snapshot and Persist are atomic w.r.t. Apply in the model (raft may overlap Persist with later Applies)"]
+        "between FSM.Snapshot() and Persist() of that snapshot raft only hands further entries to Apply (steps SP<t>:<k>: k applies in the window; no second Snapshot, no Restore in the window: raft serialises snapshots and a Restore closes the store Persist reads from); the snapshot is filed under the index raft had when Snapshot() ran"]
     ok = ck.proof_obligations()
     facts = source_facts()
     ck.notes["source_facts"] = facts
@@ -930,6 +930,8 @@ def run(ck, replay):
                 dist["S_err"] += 1
             elif op.startswith("S:"):
                 dist["S_ok" if r.get("snap", {}).get("result") == "ok" else "S_fail"] += 1
+                if r.get("stored") and r.get("snap", {}).get("last") and int(r["stored"][-1]) > int(r["snap"]["last"]):
+                    dist["S_persisted_late_with_newer_entries_in_store"] = dist.get("S_persisted_late_with_newer_entries_in_store", 0) + 1
                 if r.get("stored") == []:
                     dist["all_folded_snapshots"] += 1
                 folded_any = folded_any or r.get("snap", {}).get("state", "").split("=")[0] not in ("0", "")
@@ -1019,7 +1021,9 @@ def run(ck, replay):
     ck.cov["rule"] = ("40% small hand-rolled logs, 60% histories of irclib.Gen (operators, services link with pseudo-clients, +i/+k/+x/+b channels with bans by "
                       "host and robust/0x<id>, invitations, join captchas, SVSHOLD, AWAY, GLINE, Config with CaptchaRequiredForLogin and sessions that stop "
                       "after NICK / USER / NICK+USER / PASS with a wrong, replayed or good captcha), every log ending in a behavioural tail (each surviving "
-                      "session acts once more) that is applied after a Snapshot + Restart. Small logs: logs of 10-60 entries (15% raft-internal gaps, CreateSession/NICK/USER/JOIN/PRIVMSG/PART/TOPIC/PING/AWAY/MODE/"
+                      "session acts once more) that is applied after a Snapshot + Restart. 30% of the snapshot steps are SP steps: FSM.Snapshot() now, 2-4 more "
+                      "entries applied, then Persist() of that snapshot (raft persists from another goroutine), followed by restores that replay from the index "
+                      "captured by Snapshot(). Small logs: logs of 10-60 entries (15% raft-internal gaps, CreateSession/NICK/USER/JOIN/PRIVMSG/PART/TOPIC/PING/AWAY/MODE/"
                       "DeleteSession/Config with SessionExpiration 0s..1h, 4% pre-marked messages of death), timestamp patterns allold/allnew/"
                       "mixed/nonmono/boundary(+-1ns around t-(exp+10s)); schedules mixing Apply / Snapshot(ok|fail, t far future, far past, "
                       "10-minute window, boundary) / Restore / Restart; 20% JSON encoding, 12% FileSnapshotStore; 4% of the cases may restart "
